@@ -15,7 +15,7 @@ import scen
 PROP = "C13"
 POOL = ["ed1", "ed2", "ed3", "ed4", "ed5", "ed6", "edp1", "edp2", "ec-b", "ec-c"]
 KINDS = ["summary_only", "disallow", "match_next", "agreeing_surplus", "two_failing_steps", "delegated_surplus",
-         "require", "summary_first_step", "multi_party_nested_dissent", "multi_party_digest_dissent", "match_partial_digest_agreement"]
+         "require", "summary_first_step", "multi_party_nested_dissent", "multi_party_digest_dissent", "match_partial_digest_agreement", "same_key_two_descriptions"]
 
 
 def outcome_key(run, last):
@@ -153,6 +153,38 @@ def build(rng, W, kind):
         odd = rng.choice(sorted(d["materials"]))
         d["materials"][odd] = rng.choice([{"sha256": "11" * 32, "sha512": "33" * 64}, {"sha256": "44" * 32, "sha512": "22" * 64}])
         add("package", keys[1], d)
+    elif kind == "same_key_two_descriptions":
+        # one key, described with and without the hash-algorithm list: two identifiers, both authorised, each with its own
+        # validly signed link, and the links differ (threshold 1, so there is a surplus)
+        import hashlib
+        import jsongen
+        k = keys[0]
+        alt = W.pub(k)
+        alt.pop("keyid", None)
+        if "keyid_hash_algorithms" in alt:
+            del alt["keyid_hash_algorithms"]
+        else:
+            alt["keyid_hash_algorithms"] = ["sha256", "sha512"]
+        dsc = {"keytype": alt["keytype"], "scheme": alt["scheme"], "keyval": {"public": alt["keyval"]["public"]}}
+        if "keyid_hash_algorithms" in alt:
+            dsc["keyid_hash_algorithms"] = alt["keyid_hash_algorithms"]
+        alt_id = hashlib.sha256(jsongen.olpc_canon(dsc).encode()).hexdigest()
+        table = {W.kid(k): W.pub(k), alt_id: alt}
+        others = keys[1:rng.choice([1, 2])]
+        for o in others:
+            table[W.kid(o)] = W.pub(o)
+        steps = [scen.mk_step("build", 1, [W.kid(k), alt_id] + [W.kid(o) for o in others], [], [["ALLOW", "*"]],
+                              rng.choice([[["ALLOW", "*"]], [["DISALLOW", "evil"], ["ALLOW", "*"]]]))]
+        d0, d1 = variant_link("build", 0, 0), variant_link("build", 0, 1)
+        if rng.random() < 0.5:
+            (d0 if rng.random() < 0.5 else d1)["products"]["evil"] = scen.digest(0x66)
+        add("build", k, d0)
+        add("build", k, d1)
+        links[-1]["relabel"] = alt_id
+        for t, o in enumerate(others):
+            add("build", o, variant_link("build", 0, 2 + t))
+        layout = scen.mk_layout(W, [], steps, [], keys=table)
+        return {"kind": kind, "layout": layout, "links": links, "reqs": reqs, "keys": keys, "sub": [], "probe": [W.kid(k), alt_id] + [W.kid(o) for o in others]}
     elif kind == "two_failing_steps":
         steps = [scen.mk_step("build", 1, [W.kid(keys[0])], [], [], [["DISALLOW", "*"]]),
                  scen.mk_step("package", 1, [W.kid(keys[1])], [], [["DISALLOW", "*"]], [])]
@@ -188,12 +220,21 @@ def shard(binpath, seed, sh, n, reps, procs):
     cases = []
     for sc in scs:
         b = sc["base"]
-        files = {f"{l['step']}.{W.pfx(l['key'])}.link": scen.dumps(wires[b + l["req"]]) for l in sc["links"]}
+        files = {}
+        for l in sc["links"]:
+            w = wires[b + l["req"]]
+            if l.get("relabel"):
+                # the same key under its other identifier: the signature is as valid, the attribution differs
+                w = copy.deepcopy(w)
+                w["signatures"][0]["keyid"] = l["relabel"]
+                files[f"{l['step']}.{l['relabel'][:8]}.link"] = scen.dumps(w)
+            else:
+                files[f"{l['step']}.{W.pfx(l['key'])}.link"] = scen.dumps(w)
         for s in sc["sub"]:
             files[f"build.{W.pfx(s['key'])}.link"] = scen.dumps(wires[b + s["layout_req"]])
             files[f"build.{W.pfx(s['key'])}/inner.{W.pfx(s['key'])}.link"] = scen.dumps(wires[b + s["link_req"]])
         cases.append(scen.verify_case(wires[b], [[W.kid("ed0"), W.pub("ed0")]], files, reps=reps,
-                                      probe_ids=[W.kid(k) for k in sc["keys"]],
+                                      probe_ids=sc.get("probe") or [W.kid(k) for k in sc["keys"]],
                                       meta={"kind": sc["kind"], "nlinks": len(sc["keys"])}))
     per_proc = [common.run_batch(binpath, cases) for _ in range(procs)]
     for ci, c in enumerate(cases):
@@ -342,9 +383,62 @@ def enum_order(binpath, seed, sh):
     return res
 
 
+def sublayout_order(binpath, seed, sh, copies):
+    """two delegated steps whose sub-layouts each carry an inspection; the inspections meet in the one working
+    directory (one leaves a file behind, the other forbids that file among its materials), so the verdict shows in
+    which order the sub-layouts were verified.  Identical inputs (fresh working directory per verification) => one verdict."""
+    rng = common.rng_for(seed, PROP, 8000 + sh)
+    W = scen.World(binpath)
+    res = common.Result()
+    reqs, plans = [], []
+    for v in range(6):
+        n1, n2 = rng.sample(pipeline.STEP_NAMES[:9], 2)
+        d1, d2 = rng.sample(["ed4", "ed5", "ed6", "edp2", "ec-b"], 2)
+        writer_first = v % 2 == 0
+        top = scen.mk_layout(W, [d1, d2], [scen.mk_step(n1, 1, [W.kid(d1)], [], [["ALLOW", "*"]], [["ALLOW", "*"]]),
+                                           scen.mk_step(n2, 1, [W.kid(d2)], [], [["ALLOW", "*"]], [["ALLOW", "*"]])], [])
+        base = len(reqs)
+        reqs.append((top, ["ed0"], "new"))
+        subs = []
+        for j, (nm, dk) in enumerate(((n1, d1), (n2, d2))):
+            writes = (j == 0) == writer_first
+            if writes:
+                insp = scen.mk_inspection(f"leave{j}", ["sh", "-c", "echo x > marker.txt"], [["ALLOW", "*"]], [["ALLOW", "*"]])
+            else:
+                insp = scen.mk_inspection(f"look{j}", ["true"], [["DISALLOW", "marker.txt"], ["ALLOW", "*"]], [["ALLOW", "*"]])
+            inner = scen.mk_layout(W, ["ed1"], [scen.mk_step("inner", 1, [W.kid("ed1")], [], [["ALLOW", "*"]], [["ALLOW", "*"]])], [insp])
+            subs.append((nm, dk, len(reqs)))
+            reqs.append((inner, [dk], "new"))
+            reqs.append((pipeline.leaf_link("inner", 0), ["ed1"], "new"))
+        plans.append((base, subs, writer_first))
+    wires = scen.sign_all(binpath, reqs, nproc=1)
+    cases, groups = [], []
+    for base, subs, writer_first in plans:
+        files = {}
+        for nm, dk, b in subs:
+            files[f"{nm}.{W.pfx(dk)}.link"] = scen.dumps(wires[b])
+            files[f"{nm}.{W.pfx(dk)}/inner.{W.pfx('ed1')}.link"] = scen.dumps(wires[b + 1])
+        g = []
+        for _ in range(copies):
+            g.append(len(cases))
+            cases.append(scen.verify_case(wires[base], [[W.kid("ed0"), W.pub("ed0")]], files, work_files={"pre.txt": "p"},
+                                          meta={"kind": "sublayout_inspections_share_workdir", "writer_first_in_layout": writer_first, "nlinks": 0}))
+        groups.append(g)
+    obs = common.run_batch(binpath, cases)
+    for g in groups:
+        d = judge_group(cases[g[0]], [obs[i] for i in g], res)
+        if d is not None:
+            res.note(["sublayout_order", cases[g[0]]["layout"][:80]], True,
+                     cls=["kind:sublayout_inspections_share_workdir", f"outcomes:{len(d)}",
+                          "sublayout_order:" + ("accept" if any(k[0] == "accept" for k in d) else "reject")], n=len(g))
+    return res
+
+
 def main(ctx):
     res = common.Result()
     for p in common.pmap(history, [(ctx.bin, ctx.seed, s) for s in range(4 if not ctx.thorough else common.NPROC)]):
+        res.merge(p)
+    for p in common.pmap(sublayout_order, [(ctx.bin, ctx.seed, s, 12 if not ctx.thorough else 48) for s in range(2 if not ctx.thorough else common.NPROC)]):
         res.merge(p)
     seen = set()
     for p in common.pmap(enum_order, [(ctx.bin, ctx.seed, s) for s in range(2 if not ctx.thorough else common.NPROC)]):
@@ -366,7 +460,7 @@ def main(ctx):
              "non-trivial = the surplus links differ; distinct by (layout, directory); evaluations = verifications",
         assumptions=["fresh HashMap instances get fresh SipHash keys (std RandomState), fresh processes fresh base keys"],
         required=["kind:summary_only", "kind:disallow", "kind:match_next", "kind:delegated_surplus", "kind:require",
-                  "kind:multi_party_nested_dissent", "history:delegated:outcomes:1", "history:accept", "history:failing_verifications_in_between",
-                  "iteration_order_varied", "accept_seen", "kind:enumeration_order", "enumeration:symlink_listed_first",
+                  "kind:multi_party_nested_dissent", "kind:same_key_two_descriptions", "history:delegated:outcomes:1", "history:accept", "history:failing_verifications_in_between",
+                  "iteration_order_varied", "accept_seen", "kind:enumeration_order", "kind:sublayout_inspections_share_workdir", "enumeration:symlink_listed_first",
                   "enumeration:symlink_listed_second"],
         min_evals=2000)
